@@ -35,6 +35,22 @@ impl Case {
 
 /// Compile cases grouped by module header; returns per case the observed items (as s-expressions) or an error text.
 pub fn compile_cases(cases: &[Case], rep: &mut Report) -> Vec<Option<Vec<String>>> {
+    compile_cases_with(cases, rep, &|c: &Case, i: usize| c.asn(i))
+}
+
+/// The type is written as the body of a parameterized type (whose parameter it does not use) and the compared
+/// definition is an instance of it: an instance must come out like the type written in place.
+pub fn judge_templates(prop: &str, cases: &[Case], rep: &mut Report, describe: &dyn Fn(&Case) -> Vec<String>) {
+    let keep: Vec<Case> = cases.iter().filter(|c| c.tag.is_none()).cloned().collect();
+    let obs = compile_cases_with(&keep, rep, &|c: &Case, i: usize| format!("Par{i}E {{ Dummy }} ::= {}\n{} ::= Par{i}E {{ NULL }}", c.ty.asn(), top_name(i)));
+    for o in obs.iter().flatten() {
+        let _ = o;
+        rep.count("instance-of-template");
+    }
+    judge_obs(prop, &keep, obs, rep, describe, "written as the body of a parameterized type, compared definition = an instance of it");
+}
+
+pub fn compile_cases_with(cases: &[Case], rep: &mut Report, asn: &dyn Fn(&Case, usize) -> String) -> Vec<Option<Vec<String>>> {
     let mut out: Vec<Option<Vec<String>>> = vec![None; cases.len()];
     let rcfg = rasn_compiler::prelude::RasnConfig::default();
     let mut groups: std::collections::BTreeMap<(String, bool), Vec<usize>> = Default::default();
@@ -47,7 +63,7 @@ pub fn compile_cases(cases: &[Case], rep: &mut Report) -> Vec<Option<Vec<String>
                 "Struct-Mod {}\n{}{}\nEND\n",
                 header(&env, implied),
                 BASE_DEFS,
-                sel.iter().map(|k| cases[idxs[*k]].asn(idxs[*k])).collect::<Vec<_>>().join("\n")
+                sel.iter().map(|k| asn(&cases[idxs[*k]], idxs[*k])).collect::<Vec<_>>().join("\n")
             )]
         };
         for (sel, outcome) in batch_compile(idxs.len(), 60, &render, &rcfg) {
@@ -242,7 +258,9 @@ fn judge_obs(prop: &str, cases: &[Case], obs: Vec<Option<Vec<String>>>, rep: &mu
         if k % 211 == 0 {
             rep.sample(json!({"env": c.env, "implied": c.implied, "asn1": c.asn(i), "answer": a}));
         }
-        let agree = v.model == "agree";
+        // an instance of a template may hoist differently from the type written in place (C09's business):
+        // only the property's own verdict is taken there
+        let agree = v.model == "agree" || setting.starts_with("written as the body of a parameterized type");
         if !agree {
             // only the projection of this property matters: a model difference is reported for every
             // structural property, because the model is shared
